@@ -463,6 +463,9 @@ theorem C16_finishers_leave_receiver :
       w.fn ∈ ["DB.Save", "DB.Create", "DB.FirstOrInit", "DB.FirstOrCreate", "DB.Find", "DB.First", "DB.Take",
         "DB.Last", "DB.Update", "DB.Updates", "DB.Delete", "DB.Count", "DB.Pluck"] → w.recv = false := by decide
 
+/-- regenerated fact (since `fix:` 1b48a88): `clone()` carries clauses, attrs and assigns over -/
+theorem C16_gen_clone_full : genCfg.full := ⟨by decide, by decide, by decide⟩
+
 theorem C16_gen_recv_writes_none : ∀ k f, genRecvW k f = false := by
   intro k f
   cases k <;> cases f <;> decide
@@ -488,12 +491,12 @@ theorem C16_reuse_is_fresh_chain (cfg : CloneCfg) (w : RecvW) (hw : ∀ k f, w k
     derived by Session/WithContext anywhere — in particular AFTER Attrs/Assign — can be used k times; every use
     behaves like the fresh chain, which in turn (clone() copies everything) is the finisher applied to the
     accumulated conditions / OnConflict / last Attrs / last Assign of `pre ++ steps`. -/
-theorem C16_reuse_current_tree (hf : genCfg.full) (sch : Schema) (pre : List Step) (uses : List (List Step × Fin)) (s : Store) :
+theorem C16_reuse_current_tree (sch : Schema) (pre : List Step) (uses : List (List Step × Fin)) (s : Store) :
     useSeq genCfg genRecvW sch s (Handle.base.run genCfg pre) uses = chainSeq genCfg sch pre s uses ∧
     ∀ (t : Store) (u : List Step × Fin),
       runChain genCfg sch t (pre ++ u.1) u.2 = finishS sch t ((pre ++ u.1).foldl stmtStep Stmt.empty) u.2 :=
   ⟨C16_reuse_is_fresh_chain genCfg genRecvW C16_gen_recv_writes_none sch pre uses s,
-   fun t u => C16_chain_semantics genCfg hf.1 sch t (pre ++ u.1) u.2 (Or.inl hf)⟩
+   fun t u => C16_chain_semantics genCfg C16_gen_clone_full.1 sch t (pre ++ u.1) u.2 (Or.inl C16_gen_clone_full)⟩
 
 /-- the shape of fault this excludes: FirstOrCreate "consuming" the attrs of its receiver -/
 def c16ConsumeAttrs : RecvW := fun k f => k == .firstOrCreate && f == .attrs
